@@ -20,6 +20,19 @@ Proof.
   - eapply perm_trans; eauto.
 Qed.
 
+Lemma filter_all_true {A} (p : A -> bool) (l : list A) :
+  (forall x, In x l -> p x = true) -> filter p l = l.
+Proof.
+  induction l as [|a l IH]; intros H; cbn [filter]; auto.
+  rewrite (H a) by now left. f_equal. apply IH. intros x Hx. apply H. now right.
+Qed.
+Lemma filter_all_false {A} (p : A -> bool) (l : list A) :
+  (forall x, In x l -> p x = false) -> filter p l = [].
+Proof.
+  induction l as [|a l IH]; intros H; cbn [filter]; auto.
+  rewrite (H a) by now left. apply IH. intros x Hx. apply H. now right.
+Qed.
+
 Section Main.
   Variable G : geometry.
   Variable cdeps : str -> list nat.
@@ -107,6 +120,17 @@ Section Main.
       unfold entries. apply in_map_iff. exists n. auto.
     - apply lookup_notin. rewrite in_keys by auto. congruence.
   Qed.
+
+  (* --------------------------------------------------------- abstraction *)
+  (* what a model denotes: for every saved cell, its current value (an input)
+     or its code and precedents (a formula) *)
+  Definition abs_node (M : pmodel) (n : nat) : option (pyval + str * list nat) :=
+    if saved M n
+    then Some (if wb_input (pm_wb M) n then inl (st_cache (pm_state M) n)
+               else inr (pm_code M n, wb_deps (pm_wb M) n))
+    else None.
+  Definition abs (M : pmodel) : list (option (pyval + str * list nat)) :=
+    map (abs_node M) (seq 0 (wb_n (pm_wb M))).
 
   (* -------------------------------------------------- the loaded workbook *)
   Section Loaded.
@@ -258,5 +282,299 @@ Section Main.
       - unfold saved in S. destruct (st_built s' n) eqn:B'; auto.
         rewrite (B n B') in S. exact S.
     Qed.
+
+    (* ------------------------------------------------ from_text succeeds *)
+    Let f := fst (to_text M).
+    Let M' := load f l (pm_hash M).
+
+    Lemma to_text_get k :
+      d_get f k =
+      if str_eqb k_filename k then Some (TV (pm_filename M))
+      else if str_eqb k_cells k then Some (TCells l)
+      else if str_eqb k_hash k then Some (TV (pm_hash M))
+      else if str_eqb k_cycles k then Some (TV (pm_cycles M))
+      else d_get (match pm_extra M with None => [] | Some d => d end) k.
+    Proof. unfold f, Persist.to_text. cbn [fst]. now rewrite !d_get_set. Qed.
+
+    Lemma from_text_ok : from_text f = Ok M'.
+    Proof.
+      unfold Persist.from_text. rewrite (to_text_get k_cells).
+      replace (str_eqb k_filename k_cells) with false by reflexivity.
+      replace (str_eqb k_cells k_cells) with true by reflexivity.
+      assert (E: existsb (fun x => g_range G (fst x) || negb (fst x <? g_n G)) l = false).
+      { destruct (existsb _ l) eqn:E; auto. apply existsb_exists in E.
+        destruct E as [[n v] [Hin Hx]]. cbn [fst] in Hx.
+        assert (S: saved M n = true).
+        { apply (in_saved_keys M n OK). change n with (fst (n, v)). now apply in_map. }
+        pose proof (saved_lt n S) as L. rewrite NG in L.
+        unfold saved in S. apply andb_prop in S. destruct S as [_ R]. apply negb_true_iff in R.
+        rewrite (ok_range M OK) in R by auto. rewrite R in Hx. cbn [orb] in Hx.
+        apply Nat.ltb_lt in L. now rewrite L in Hx. }
+      rewrite E. rewrite (to_text_get k_hash).
+      replace (str_eqb k_filename k_hash) with false by reflexivity.
+      replace (str_eqb k_cells k_hash) with false by reflexivity.
+      replace (str_eqb k_hash k_hash) with true by reflexivity.
+      reflexivity.
+    Qed.
+
+    (* ---------------------------------------------------------- C03_abs *)
+    Lemma abs_same : abs M' = abs M.
+    Proof.
+      unfold abs. change (wb_n (pm_wb M')) with (g_n G). rewrite <- NG.
+      apply map_ext_in. intros n Hn. apply in_seq in Hn. assert (L: n < N) by lia.
+      unfold abs_node at 1. change (saved M' n) with (st_built s' n && negb (g_range G n)).
+      rewrite loaded_saved by auto. unfold abs_node. destruct (saved M n) eqn:S; auto. f_equal.
+      change (wb_input (pm_wb M') n) with (wb_input W' n).
+      change (st_cache (pm_state M') n) with (st_cache s' n).
+      change (pm_code M' n) with (code' n). change (wb_deps (pm_wb M') n) with (wb_deps W' n).
+      destruct (wb_input W n) eqn:In.
+      - destruct (at_input n S In) as (_ & A & _ & B). rewrite A. f_equal.
+        destruct loaded_state as (_ & _ & _ & C). now rewrite C.
+      - destruct (at_formula n S In) as (_ & A & B & C). now rewrite A, B, C.
+    Qed.
+
+    (* -------------------------------------------------------- C03_equiv *)
+    Hypothesis SO : stored_ok W (pm_sem M).
+    Hypothesis AC : allcells W s.
+    Hypothesis EX : inputs_exact W (st_cache s).
+
+    Lemma agree_all n : n < N ->
+      wb_input W n = wb_input W' n /\ wb_deps W n = wb_deps W' n /\
+      (wb_input W n = false -> forall vals, pm_sem M n vals = sem' n vals) /\
+      (wb_input W n = true -> wb_inp0 W' n = st_cache s n).
+    Proof.
+      intros L. unfold Persist.pm_sem, sem', sem_of.
+      rewrite (ok_range M OK) by (rewrite <- NG; auto).
+      destruct (kinds n L) as [R|[[S In]|[[S In]|[R B]]]].
+      - destruct (at_range n L R) as (A & B & C). rewrite A, B, C.
+        rewrite (ok_range M OK) in R by (rewrite <- NG; auto). rewrite R.
+        repeat split; auto. discriminate.
+      - destruct (at_input n S In) as (_ & A & B & C). rewrite A, B, In.
+        repeat split; auto; try discriminate. now apply (input_nodeps W WF).
+      - destruct (at_formula n S In) as (_ & A & B & C). rewrite A, B, C, In.
+        repeat split; auto. discriminate.
+      - rewrite (AC n L R) in B. discriminate.
+    Qed.
+
+    Lemma equiv h : Forall (post_ok W) h ->
+      snd (run W' sem' s' h) = snd (run W (pm_sem M) s h).
+    Proof.
+      intros F.
+      pose proof (sem_of_nonblank W (wb_range W) (pm_code M) CNB) as NBW.
+      destruct loaded_state as (I' & A & B & C).
+      assert (EN: N = wb_n W') by exact NG.
+      (* the original *)
+      destruct (run_coherent W (pm_sem M) WF NBW SO h s (st_cache s) I) as [T1 _]; auto.
+      { intros m _ _. reflexivity. }
+      { now apply post_history_ok. }
+      (* the loaded model *)
+      assert (F': Forall (post_ok W') h).
+      { eapply Forall_impl; [|exact F]. intros o. apply post_ok_congr; auto.
+        intros n L. now apply agree_all. }
+      assert (AC': allcells W' s').
+      { intros n L R. change (wb_n W') with (g_n G) in L. rewrite <- NG in L.
+        change (wb_range W' n) with (g_range G n) in R.
+        rewrite <- (ok_range M OK) in R by (rewrite <- NG; auto).
+        apply A. unfold saved. now rewrite (AC n L R), R. }
+      destruct (run_coherent W' sem' wf_loaded nb_loaded so_loaded h s' (st_cache s) I') as [T2 _]; auto.
+      { intros m L In. rewrite <- EN in L. destruct (agree_all m L) as (E1 & _ & _ & E4).
+        rewrite C by auto. apply E4. congruence. }
+      { intros m L In. rewrite <- EN in L. destruct (agree_all m L) as (E1 & _). apply EX; auto. congruence. }
+      { apply post_history_ok; auto using wf_loaded, nb_loaded, so_loaded. }
+      rewrite T1, T2. symmetry.
+      apply (run_spec_congr W W' (pm_sem M) sem' WF wf_loaded EN); auto.
+      - intros n L. now apply agree_all.
+      - intros n L. now apply agree_all.
+      - intros n vals L In. now apply agree_all.
+    Qed.
+
+    (* --------------------------------------- saving the loaded model again *)
+    Lemma cell_value_loaded n : saved M n = true -> cell_value M' n = cell_value M n.
+    Proof.
+      intros S. unfold cell_value at 1.
+      change (wb_input (pm_wb M') n) with (wb_input W' n).
+      change (st_cache (pm_state M') n) with (st_cache s' n).
+      change (pm_code M' n) with (code' n). unfold cell_value.
+      destruct (wb_input W n) eqn:In.
+      - destruct (at_input n S In) as (_ & A & _ & B). rewrite A.
+        destruct loaded_state as (_ & _ & _ & C). now rewrite C.
+      - destruct (at_formula n S In) as (_ & A & _ & C). now rewrite A, C.
+    Qed.
+
+    Lemma resaved_cells : saved_cells M' = l.
+    Proof.
+      rewrite saved_cells_eq.
+      assert (E: entries M' = l).
+      { unfold entries. change (pm_order M') with
+          (map fst l ++ filter (fun n => st_built s' n && g_range G n) (seq 0 (g_n G))).
+        change (wb_range (pm_wb M')) with (g_range G). rewrite filter_app.
+        rewrite (filter_all_true (fun n => negb (g_range G n)) (map fst l)).
+        2:{ intros n H. apply (in_saved_keys M n OK) in H. pose proof (saved_lt n H) as L.
+            unfold saved in H. apply andb_prop in H. destruct H as [_ H].
+            rewrite (ok_range M OK) in H by (rewrite <- NG; auto). exact H. }
+        rewrite (filter_all_false (fun n => negb (g_range G n))).
+        2:{ intros n H. apply filter_In in H. destruct H as [_ H]. apply andb_prop in H.
+            destruct H as [_ ->]. reflexivity. }
+        rewrite app_nil_r, map_map. rewrite <- (map_id l) at 2. apply map_ext_in.
+        intros [n v] H. cbn [fst]. rewrite (in_saved_value M n v H). f_equal.
+        apply cell_value_loaded. apply (in_saved_keys M n OK).
+        change n with (fst (n, v)). now apply in_map. }
+      rewrite E. apply isort_id. unfold l. rewrite saved_cells_eq. apply isort_sorted.
+    Qed.
+
+    (* -------------------------------------------------------- the settings *)
+    Lemma settings_survive :
+      pm_cycles M' = pm_cycles M /\ pm_filename M' = pm_filename M /\ pm_hash M' = pm_hash M.
+    Proof.
+      unfold M', Persist.load. cbn [pm_cycles pm_filename pm_hash].
+      rewrite (to_text_get k_cycles), (to_text_get k_filename).
+      replace (str_eqb k_filename k_cycles) with false by reflexivity.
+      replace (str_eqb k_cells k_cycles) with false by reflexivity.
+      replace (str_eqb k_hash k_cycles) with false by reflexivity.
+      replace (str_eqb k_cycles k_cycles) with true by reflexivity.
+      replace (str_eqb k_filename k_filename) with true by reflexivity.
+      auto.
+    Qed.
+
+    Definition reserved (k : str) : bool :=
+      str_eqb k_filename k || str_eqb k_cells k || str_eqb k_hash k || str_eqb k_cycles k.
+
+    Lemma extra_get k :
+      d_get (match pm_extra M' with None => [] | Some d => d end) k =
+      if str_eqb k_hash k then None else if str_eqb k_cells k then None
+      else if str_eqb k_cycles k then None else d_get f k.
+    Proof. unfold M', Persist.load. cbn [pm_extra]. now rewrite !d_get_del. Qed.
+
+    (* every user key of extra_data survives *)
+    Lemma extra_survives k : reserved k = false ->
+      d_get (match pm_extra M' with None => [] | Some d => d end) k =
+      d_get (match pm_extra M with None => [] | Some d => d end) k.
+    Proof.
+      unfold reserved. intros R. apply orb_false_iff in R. destruct R as [R R4].
+      apply orb_false_iff in R. destruct R as [R R3]. apply orb_false_iff in R. destruct R as [R1 R2].
+      rewrite extra_get, R2, R3, R4, to_text_get, R1, R2, R3, R4. reflexivity.
+    Qed.
   End Loaded.
+
+  (* ---------------------------------------------------- C03_deterministic *)
+  Lemma deterministic M1 M2 :
+    Permutation (pm_order M1) (pm_order M2) ->
+    (forall n, In n (pm_order M1) ->
+       wb_range (pm_wb M1) n = wb_range (pm_wb M2) n /\ cell_value M1 n = cell_value M2 n) ->
+    NoDup (map (g_key G) (filter (fun n => negb (wb_range (pm_wb M1) n)) (pm_order M1))) ->
+    saved_cells M1 = saved_cells M2.
+  Proof.
+    intros P E ND. rewrite !saved_cells_eq. apply isort_deterministic.
+    - unfold entries.
+      rewrite (filter_ext_in (fun n => negb (wb_range (pm_wb M1) n))
+                             (fun n => negb (wb_range (pm_wb M2) n)) (pm_order M1))
+        by (intros n H; now rewrite (proj1 (E n H))).
+      rewrite (map_ext_in (fun n => (n, cell_value M1 n)) (fun n => (n, cell_value M2 n)))
+        by (intros n H; apply filter_In in H; now rewrite (proj2 (E n (proj1 H)))).
+      now apply Permutation_map, Permutation_filter.
+    - unfold entries. now rewrite map_map.
+  Qed.
+
+  Lemma deterministic_doc M1 M2 :
+    Permutation (pm_order M1) (pm_order M2) ->
+    (forall n, In n (pm_order M1) ->
+       wb_range (pm_wb M1) n = wb_range (pm_wb M2) n /\ cell_value M1 n = cell_value M2 n) ->
+    NoDup (map (g_key G) (filter (fun n => negb (wb_range (pm_wb M1) n)) (pm_order M1))) ->
+    pm_cycles M1 = pm_cycles M2 -> pm_filename M1 = pm_filename M2 -> pm_hash M1 = pm_hash M2 ->
+    pm_extra M1 = pm_extra M2 ->
+    fst (to_text M1) = fst (to_text M2).
+  Proof.
+    intros P E ND E1 E2 E3 E4. unfold Persist.to_text. cbn [fst].
+    now rewrite (deterministic M1 M2 P E ND), E1, E2, E3, E4.
+  Qed.
+
+  (* --------------------------------------------------------- second save *)
+  (* the same object saved twice, extra_data = None *)
+  Lemma resave_same M : pm_extra M = None -> fst (to_text (snd (to_text M))) = fst (to_text M).
+  Proof. destruct M as [a b c d e f0 g0 h0]. cbn [Persist.pm_extra]. intros ->. reflexivity. Qed.
+
+  (* -------------------------------------------------------------- formats *)
+  Lemma read_write (print : pyval -> str) (parse : str -> pyval) :
+    (forall v, parse (print v) = v) -> forall f, read_file parse (write_file print f) = f.
+  Proof.
+    intros RT f. unfold read_file, write_file. rewrite map_map. rewrite <- (map_id f) at 2.
+    apply map_ext. intros [k [v|l]]; cbn [fst snd].
+    - now rewrite RT.
+    - do 2 f_equal. rewrite map_map. rewrite <- (map_id l) at 2. apply map_ext.
+      intros [n v]. cbn [fst snd]. now rewrite RT.
+  Qed.
 End Main.
+
+(* ------------------------------------------------------ the theorems *)
+Section Final.
+  Variable G : geometry.
+  Variable cdeps : str -> list nat.
+  Variable csem : str -> list pyval -> pyval.
+  Variable rsem : nat -> list pyval -> pyval.
+  Notation roundtrip := (roundtrip_pkl G cdeps csem rsem).
+  Notation sem := (pm_sem csem rsem).
+
+  (* the hypotheses shared by the round-trip theorems *)
+  Definition persist_ok (M : pmodel) : Prop :=
+    pm_ok G cdeps M /\ wf (pm_wb M) /\ code_nonblank csem rsem
+    /\ Inv (pm_wb M) (sem M) (pm_state M) /\ no_eq_text M.
+
+  Theorem abs_roundtrip M : persist_ok M ->
+    exists M', roundtrip M = Ok M' /\ abs M' = abs M.
+  Proof.
+    intros (OK & WF & CNB & I & NE). eexists. split.
+    - apply from_text_ok; eauto.
+    - now apply abs_same.
+  Qed.
+
+  Theorem equiv_roundtrip M : persist_ok M ->
+    stored_ok (pm_wb M) (sem M) -> allcells (pm_wb M) (pm_state M) ->
+    inputs_exact (pm_wb M) (st_cache (pm_state M)) ->
+    exists M', roundtrip M = Ok M' /\
+      forall h, Forall (post_ok (pm_wb M)) h ->
+        snd (run (pm_wb M') (sem M') (pm_state M') h) = snd (run (pm_wb M) (sem M) (pm_state M) h)
+        /\ snd (run (pm_wb M) (sem M) (pm_state M) h) =
+           run_spec (pm_wb M) (sem M) (st_cache (pm_state M)) h.
+  Proof.
+    intros (OK & WF & CNB & I & NE) SO AC EX. eexists. split.
+    - apply from_text_ok; eauto.
+    - intros h F. split.
+      + now apply (equiv G cdeps csem rsem M).
+      + apply run_coherent; auto.
+        * now apply sem_of_nonblank.
+        * intros m _ _. reflexivity.
+        * apply post_history_ok; auto. now apply sem_of_nonblank.
+  Qed.
+
+  Theorem idempotent M : persist_ok M ->
+    exists M', roundtrip M = Ok M' /\
+      saved_cells G M' = saved_cells G M /\
+      forall k, d_get (fst (to_text G M')) k = d_get (fst (to_text G M)) k.
+  Proof.
+    intros (OK & WF & CNB & I & NE). eexists. split; [apply from_text_ok; eauto|].
+    pose proof (resaved_cells G cdeps csem rsem M OK WF I NE CNB) as RC.
+    split; [exact RC|]. intros k.
+    rewrite (to_text_get G _ k), (to_text_get G M k), RC.
+    destruct (settings_survive G cdeps csem rsem M) as (-> & -> & ->).
+    destruct (str_eqb k_filename k) eqn:R1; auto. destruct (str_eqb k_cells k) eqn:R2; auto.
+    destruct (str_eqb k_hash k) eqn:R3; auto. destruct (str_eqb k_cycles k) eqn:R4; auto.
+    rewrite extra_get, R3, R2, R4, to_text_get, R1, R2, R3, R4. reflexivity.
+  Qed.
+
+  Theorem settings_roundtrip M : pm_ok G cdeps M -> Inv (pm_wb M) (sem M) (pm_state M) ->
+    exists M', roundtrip M = Ok M' /\
+      pm_cycles M' = pm_cycles M /\ pm_filename M' = pm_filename M /\ pm_hash M' = pm_hash M /\
+      forall k, reserved k = false ->
+        d_get (match pm_extra M' with None => [] | Some d => d end) k =
+        d_get (match pm_extra M with None => [] | Some d => d end) k.
+  Proof.
+    intros OK I. eexists. split; [apply from_text_ok; eauto|].
+    destruct (settings_survive G cdeps csem rsem M) as (A & B & C).
+    repeat split; auto. intros k. apply extra_survives.
+  Qed.
+
+  Theorem text_formats (print : pyval -> str) (parse : str -> pyval) M :
+    (forall v, parse (print v) = v) ->
+    roundtrip_text G cdeps csem rsem print parse M = roundtrip M.
+  Proof. intros RT. unfold roundtrip_text, roundtrip_pkl. now rewrite read_write. Qed.
+End Final.
